@@ -327,8 +327,100 @@ def shard_join(args):
     return acc.export()
 
 
+class Loud(str):
+    """A str subclass whose __str__ is not its character data (like the members of a `class X(str, Enum)`)."""
+
+    def __str__(self):
+        return "WRONG"
+
+
+def shard_special_operands(args):
+    """(a) str-subclass operands whose __str__ differs from their characters, against cold operands and operands whose text / length /
+    terminal string were read before; (b) join over a lazy iterable whose items are produced by joins on the same separator object
+    (recursive rendering of a tree)."""
+    tier, seed, idx = args
+    import enum
+
+    from curtsies.formatstring import fmtstr
+
+    class Colour(str, enum.Enum):
+        A = "ab"
+        B = ""
+
+    acc = Acc(seed=seed)
+    specs = list(C.layouts(3, 2))[idx::16] + C.exotic_specs()[idx::16]
+    odd = [("Loud('ab')", lambda: Loud("ab"), "ab"), ("Enum member 'ab'", lambda: Colour.A, "ab"), ("Loud('')", lambda: Loud(""), ""), ("Enum member ''", lambda: Colour.B, "")]
+    for spec in specs:
+        fc = C.spec_cells(spec)
+        for warm in ("cold", "s", "len", "str", "all"):
+            for oname, make, chars in odd:
+                oc = [(c, ()) for c in chars]
+                mid = len(fc) // 2
+                menu = (
+                    ("f + x", lambda f, x: f + x, fc + oc), ("x + f", lambda f, x: x + f, oc + fc), ("f.join([x, 'k', x])", lambda f, x: f.join([x, "k", x]), oc + fc + [("k", ())] + fc + oc),
+                    ("fmtstr('-').join([x, f])", lambda f, x: fmtstr("-").join([x, f]), oc + [("-", ())] + fc), ("f.splice(x, mid)", lambda f, x: f.splice(x, mid), fc[:mid] + oc + fc[mid:]),
+                    ("f.append(x)", lambda f, x: f.append(x), fc + oc),
+                )
+                for label, fn, want in menu:
+                    f = C.build(spec)
+                    if warm in ("s", "all"):
+                        f.s
+                    if warm in ("len", "all"):
+                        len(f)
+                    if warm in ("str", "all"):
+                        str(f)
+                    case = {"f": C.show_spec(spec), "operand": oname, "op": label, "read_before": warm}
+                    acc.case(True, key=("odd", spec, warm, oname, label), sample=case)
+                    acc.transitions += 1
+                    try:
+                        r = fn(f, make())
+                        got = C.cells(r)
+                    except Exception as ex:  # noqa
+                        acc.failure("C06:op_raises:" + type(ex).__name__, case, repr(ex))
+                        continue
+                    if got != want or r.s != "".join(c for c, _ in want) or len(r) != len(want) or len(r.s) != len(r):
+                        acc.failure("C06:str_subclass_operand", case, "cells %r text %r len %r, expected %r" % (got[:8], r.s[:20], len(r), want[:8]))
+    # (b) recursive joins through a generator, same separator object at every level
+    trees = [["a", ["b", "c"], "d"], [["x"], [["y", "z"], "w"], []], ["p"], [[[["q", "r"]]], "s", ["t", ["u", ["v", ["w", "x"]]]]]]
+    for si, sspec in enumerate(specs[:12] + [()]):
+        sep = C.build(sspec)
+        sc = C.cells(sep)
+        for ti, tree in enumerate(trees):
+            for kind in ("generator", "list"):
+                def show(node):
+                    if isinstance(node, str):
+                        return fmtstr(node, "red") if node in "bx" else node
+                    if kind == "generator":
+                        return "[" + sep.join(show(c) for c in node) + "]"
+                    return "[" + sep.join([show(c) for c in node]) + "]"
+
+                def model(node):
+                    if isinstance(node, str):
+                        return [(node, (("fg", 31),) if node in "bx" else ())]
+                    out = [("[", ())]
+                    for k, c in enumerate(node):
+                        if k:
+                            out += sc
+                        out += model(c)
+                    return out + [("]", ())]
+
+                case = {"sep": C.show_spec(sspec), "tree": tree, "items_as": kind, "op": "nested joins on one separator object"}
+                acc.case(True, key=("tree", sspec, ti, kind), sample=case)
+                acc.transitions += 1
+                try:
+                    got = C.cells(show(tree))
+                except Exception as ex:  # noqa
+                    acc.failure("C06:join_raises:" + type(ex).__name__, case, repr(ex))
+                    continue
+                if got != model(tree):
+                    acc.failure("C06:join_result", case, "got %r expected %r" % ("".join(c for c, _ in got), "".join(c for c, _ in model(tree))))
+    return acc.export()
+
+
 def run(ctx):
     rep = Report()
+    for d in ctx.pmap(shard_special_operands, [(ctx.tier, ctx.seed, i) for i in range(16)]):
+        rep.merge(d, "str_subclass_operands_and_nested_joins")
     repeat.run_into(ctx, rep, "C06")
     for d in ctx.pmap(shard_index, [(ctx.tier, ctx.seed, i) for i in range(NSHARDS)]):
         rep.merge(d, "index_slice_mul")
